@@ -70,7 +70,10 @@ fn c10_push_data_is_not_a_jumpdest() {
         let is = InstructionStream::try_from(v.as_slice()).unwrap();
         let t = is.new_thread(0).unwrap();
         for i in 1..=n as u32 {
-            if is_jd(&t, i) { witness("C10", "dis.immediates_are_not_instructions", format!("{v:02x?} offset {i}"), "JumpDest".into(), "padding".into()); }
+            if is_jd(&t, i) {
+                witness("C10", "dis.immediates_are_not_instructions", format!("{v:02x?} offset {i}"), "JumpDest".into(), "padding".into());
+                witness("C08", "dis.jumpdest_is_boundary", format!("{v:02x?} offset {i}"), "push data is a JumpDest".into(), "never a jump destination".into());
+            }
         }
         if !is_jd(&t, n as u32 + 1) { witness("C10", "dis.jumpdest_kept", format!("{v:02x?} offset {}", n + 1), "not JumpDest".into(), "JumpDest".into()); }
     }
@@ -83,7 +86,10 @@ fn c10_push_data_is_not_a_jumpdest() {
                 let Ok(is) = InstructionStream::try_from(v.as_slice()) else { continue };
                 let t = is.new_thread(0).unwrap();
                 for i in 1..v.len() as u32 {
-                    if is_jd(&t, i) { witness("C10", "dis.truncated_push_data_are_not_instructions", format!("{v:02x?} offset {i}"), "JumpDest".into(), "Invalid".into()); }
+                    if is_jd(&t, i) {
+                        witness("C10", "dis.truncated_push_data_are_not_instructions", format!("{v:02x?} offset {i}"), "JumpDest".into(), "Invalid".into());
+                        witness("C08", "dis.jumpdest_is_boundary", format!("{v:02x?} offset {i}"), "push data is a JumpDest".into(), "never a jump destination".into());
+                    }
                     let b = t.instruction(i).unwrap().as_ref().encode();
                     if b != vec![v[i as usize]] { witness("C10", "dis.truncated_push_is_invalid_bytes", format!("{v:02x?} offset {i}"), format!("{b:02x?}"), format!("[{:02x}]", v[i as usize])); }
                 }
